@@ -38,6 +38,14 @@ CHECKS = {
    text="Valid schemas are generated as programs (all sequences up to a length over a component alphabet covering every component kind, with the placement rules respected) in the three sections, crossed with 6 variable assignments and both formats; SemVer::from(Zerv)/PEP440::from(Zerv) are compared by full string equality with R-REN, a transcription of the documented placement rules; the smart presets' tier table is checked at schema_with_zerv and through the CLI; a slice is bound to `zerv version --source stdin` in-process and through the real binary.",
    note="Trusts R-REN, R-SAN, R-CAL; component alphabet and lengths as stated; wall clock pinned by the LD_PRELOAD seam.",
    technique="exhaustive enumeration of schema programs x variable assignments against a reference renderer", ref="C06"),
+ "C01": dict(cat="model_checking",
+   text="Every string over a 10-symbol alphabet (both cases, digits, separators, '+', non-ASCII letter/digit, 3-byte symbol) up to length 3/4 plus a pool of special texts (zero-padded digit runs around u32/u64, 300-char text, control characters, case-folding look-alikes) is placed in each of 6 text positions in turn and rendered under every preset that prints it and 5 custom schemas in both formats; numbers at the integer boundaries in 9 numeric variables; an in-process CLI layer (sources none/stdin, --schema/--schema-ron, --custom, --output-prefix, overrides, bumps) and a binary slice. Oracle: ASCII, reference grammar (R-SV / R-PEP normal form), accepted by zerv's own parser, re-render fixed point for presets, exactly one stdout line.",
+   note="Trusts R-SV/R-PEP (validated in C08/C09). Text alphabet and length as stated; git source covered by C02's states.",
+   technique="bounded exhaustive enumeration of texts x positions x schemas x formats with grammar invariants as oracle", ref="C01"),
+ "C05": dict(cat="model_checking",
+   text="For 18 environments (6 start versions incl. PEP 440 and a stdin object at the u64 boundary x 3 schemas incl. one with literal components in all sections) every subset up to size 3 of a 60-90 element flag-instance alphabet (field overrides/bumps, label override/bump, index overrides/bumps in positive, negative and ~n spelling, VCS/context overrides) goes through the real clap parser and run_version_pipeline; the resulting schema+vars are compared with R-BUMP, a single pass over the 11 precedence levels; all permutations of flag order up to size 2/3; invalid targets and boundary amounts; chaining through --source stdin from every one-op state.",
+   note="Trusts R-BUMP; two behaviours the statement leaves open are masked (invented label, kept number); outputs read back with zerv's RON parser.",
+   technique="exhaustive subset + permutation enumeration of flag instances against a reference precedence machine, with chained (non-initial) states", ref="C05"),
 }
 
 def main():
